@@ -482,6 +482,9 @@ def run_history(scenario):
                     coords.forward_map_molecule(cg, aa)
                     check_forward(mol, seq)
                     for bead, old in before.items():
+                        wsum = sum(float(aa.nodes[n].get("weight", 1) or 0) for n in mol.members.get(bead, []))
+                        if wsum == 0:
+                            continue   # a bead whose atoms all weigh 0 has no weight-normalised average
                         new = np.asarray(cg.nodes[bead]["position"], dtype=float)
                         if not np.allclose(new - old, shift, rtol=0, atol=1e-7):
                             violate("C18.forward-map", "translating all atoms by %r moved bead %r by %r"
